@@ -656,10 +656,12 @@ func extractSessionCompositeKey(data any, keys []string) string {
 	if m, ok := data.(map[string]any); ok {
 		parts := make([]string, 0, len(keys))
 		for _, k := range keys {
-			if val, exists := m[k]; exists {
-				parts = append(parts, cast.ToString(val))
+			// '|' and '\\' inside a value are escaped and NULL/missing has its own
+			// marker, so ("a|b","c") / ("a","b|c") and NULL / "" get different sessions.
+			if val := m[k]; val != nil {
+				parts = append(parts, cast.EscapeGroupKeyText(cast.ToString(val)))
 			} else {
-				parts = append(parts, "")
+				parts = append(parts, cast.GroupKeyNull)
 			}
 		}
 		return strings.Join(parts, "|")
@@ -673,20 +675,24 @@ func extractSessionCompositeKey(data any, keys []string) string {
 
 	parts := make([]string, 0, len(keys))
 	for _, k := range keys {
-		var part string
+		var val any
 		switch v.Kind() {
 		case reflect.Map:
 			if v.Type().Key().Kind() == reflect.String {
 				mv := v.MapIndex(reflect.ValueOf(k))
 				if mv.IsValid() {
-					part = cast.ToString(mv.Interface())
+					val = mv.Interface()
 				}
 			}
 		case reflect.Struct:
 			f := v.FieldByName(k)
 			if f.IsValid() {
-				part = cast.ToString(f.Interface())
+				val = f.Interface()
 			}
+		}
+		part := cast.GroupKeyNull
+		if val != nil {
+			part = cast.EscapeGroupKeyText(cast.ToString(val))
 		}
 		parts = append(parts, part)
 	}
